@@ -1,2 +1,36 @@
 //! Facade fragment "server" (see mod.rs): re-exports / wrappers the simulator needs
 //! from crate::server-related code. Owned by the world that uses it.
+//!
+//! Owner: world w1s (NTP server world). Thin wrappers only: the simulated NTS clients need to mint
+//! cookies under the server's key set (as a key exchange would) and to name the cipher / Bloom
+//! filter types that live in private modules.
+
+use crate::keyset::{DecodedServerCookie, KeySet};
+use crate::nts::AeadAlgorithm;
+
+pub use crate::packet::v5::server_reference_id::{BloomFilter, ServerId};
+pub use crate::packet::{AesSivCmac256, AesSivCmac512};
+
+/// Session keys as a key exchange would hand them to the server for cookie minting.
+/// `algorithm` is the IANA AEAD id (15 = AES-SIV-CMAC-256, 32-byte keys; 17 = AES-SIV-CMAC-512, 64-byte keys).
+pub fn make_cookie(algorithm: u16, s2c: &[u8], c2s: &[u8]) -> Option<DecodedServerCookie> {
+    let algorithm = AeadAlgorithm::from(algorithm);
+    Some(match algorithm {
+        AeadAlgorithm::AeadAesSivCmac256 => DecodedServerCookie {
+            algorithm,
+            s2c: Box::new(AesSivCmac256::try_from(s2c).ok()?),
+            c2s: Box::new(AesSivCmac256::try_from(c2s).ok()?),
+        },
+        AeadAlgorithm::AeadAesSivCmac512 => DecodedServerCookie {
+            algorithm,
+            s2c: Box::new(AesSivCmac512::try_from(s2c.iter().copied()).ok()?),
+            c2s: Box::new(AesSivCmac512::try_from(c2s.iter().copied()).ok()?),
+        },
+        AeadAlgorithm::Unknown(_) => return None,
+    })
+}
+
+/// `KeySet::encode_cookie` (pub(crate)): mint a cookie under the key set's primary key.
+pub fn encode_cookie(keyset: &KeySet, cookie: &DecodedServerCookie) -> Vec<u8> {
+    keyset.encode_cookie(cookie)
+}
